@@ -269,7 +269,9 @@ package kafka
 //@   loop 0 assume-stable forall k :: 0 <= k && k < len(indexes) ==> 0 <= indexes[k] && int(indexes[k]) < len(msgs)
 //@   loop 0 assume-stable forall k :: 0 <= k && k < len(indexes) ==> 0 <= int64(msgs[indexes[k]].totalSize()) && int64(msgs[indexes[k]].totalSize()) <= ptw.w.batchBytes()
 // C01: the index of a message is filed under the batch that holds the message (error attribution per message): when the
-// loop goes round, the batch the index was filed under ends with that very message
+// loop goes round, the batch the index was filed under ends with that very message; messages are only ever added to the
+// batch held in `batch`, the variable the index is filed under
+//@   callsite (*writeBatch).add requires $0 == batch
 //@   loop 0 step len(batch.msgs) >= 1 && same(batch.msgs[len(batch.msgs)-1].Value, msgs[i].Value) && same(batch.msgs[len(batch.msgs)-1].Key, msgs[i].Key)
 //@   loop 0 invariant ptwInv(ptw) && -1 <= rangeindex
 //@   loop 0 invariant ptw.currBatch != nil && msgs != nil ==> ptw.currBatch.msgs.base != msgs.base
